@@ -89,6 +89,15 @@ func checkCmd(args []string) int {
 		}
 		cr.CheckParams(entries)
 		return cr.Finish("proof", checkerCmd, commonTrusted, "one obligation per (new<Op>Params return site, clause) and per array-loop invariant edge; all requests; reference parser skeleton from the spec")
+	case "C02":
+		entries := vc.FixtureCorpus(*repo, "response_component", "response_header", "response_default", "response_schema", "octet_stream", "components", "petstore", "get_params")
+		entries = append(entries, vc.ResponseCorpus(corpusDir)...)
+		if *tier != "quick" {
+			entries = vc.FixtureCorpus(*repo)
+			entries = append(entries, vc.ResponseCorpus(corpusDir)...)
+		}
+		cr.CheckResponses(entries)
+		return cr.Finish("proof", checkerCmd, commonTrusted, "per operation: sealing (go/types method sets), and for every type satisfying the response interface the Write / write<Op> contracts of the documented response it serves (header view, body view of the event trace), all response values")
 	case "C14":
 		entries := vc.FixtureCorpus(*repo, "get_params", "router", "security_jwt_apikey_query", "response_header", "response_component", "json", "request_body")
 		if *tier != "quick" {
